@@ -1072,16 +1072,22 @@ ANIcreate(int32    file_id,  /* IN: file ID */
                                     AN_FILE_LABEL for file labels,
                                     AN_FILE_DESC for file descriptions.*/)
 {
-    int32  ann_id = FAIL;
-    uint16 ann_tag;
-    uint16 ann_ref;
-    int    ret_value = SUCCEED;
+    filerec_t *file_rec = NULL;
+    int32      ann_id   = FAIL;
+    int32      ann_key;
+    uint16     ann_tag;
+    uint16     ann_ref;
+    int        ret_value = SUCCEED;
 
     /* Clear error stack */
     HEclear();
 
     /* Valid file id */
     if (HAatom_group(file_id) != FIDGROUP)
+        HGOTO_ERROR(DFE_ARGS, FAIL);
+
+    file_rec = HAatom_object(file_id);
+    if (BADFREC(file_rec))
         HGOTO_ERROR(DFE_ARGS, FAIL);
 
     /* deal with type */
@@ -1111,6 +1117,27 @@ ANIcreate(int32    file_id,  /* IN: file ID */
         default:
             HE_REPORT_GOTO("Bad annotation type for this call", FAIL);
     }
+
+    /* Load the annotations of this type already in the file first: ANIaddentry
+     * would otherwise start an empty tree and hide them for the rest of the session */
+    if (file_rec->an_num[type] == -1) {
+        if (ANIcreate_ann_tree(file_id, type) == FAIL)
+            HGOTO_ERROR(DFE_BADCALL, FAIL);
+    }
+
+    /* A ref handed out by an earlier ANcreate whose annotation has not been written yet
+     * is not in the DD list, so Htagnewref offers it again: take the next ref that is
+     * used neither by the file nor by an annotation of this type in the tree */
+    while (ann_ref != 0) {
+        ann_key = AN_CREATE_KEY(type, ann_ref);
+        if (tbbtdfind(file_rec->an_tree[type], &ann_key, NULL) == NULL && Hexist(file_id, ann_tag, ann_ref) == FAIL)
+            break;
+        ann_ref++;
+    }
+    if (!ann_ref)
+        HGOTO_ERROR(DFE_NOREF, FAIL);
+    if (type == AN_FILE_LABEL || type == AN_FILE_DESC)
+        elem_ref = ann_ref;
 
     /* Check tag and ref */
     if (!elem_tag)
